@@ -1512,6 +1512,20 @@ FANOUT = [
          sendlog={"send": ("sent", "({0}, {1})")}),
 ]
 
+# ---- own-area shares of a call's detections: computed among the detections of that scene and call only (C04, C06, C13)
+SHARES_SNIP = r"let mut percentages = Vec::default\(\);.*?(?=let mut rng = rand::thread_rng\(\);)"
+SHARES_COMMON = dict(group="Shares", snippet=SHARES_SNIP, imperative=True, result="(use_own_area_percentage, percentages)", scalar="Rat",
+                     sig="{B P : Type} (ownAreas : List B → List P) (shares : List B → List P → List Rat) (collect use : Rat) (observations : List (VObsIn B)) : Bool × List Rat",
+                     fieldpath={"self.metric_opts.visual_minimal_own_area_percentage_collect": "collect", "self.metric_opts.visual_minimal_own_area_percentage_use": "use"},
+                     field={"bounding_box": "bounding_box"},
+                     method={"iter": "{0}", "map": "List.map {1} {0}", "collect": "{0}", "as_ref": "{0}", "len": "List.length {0}"},
+                     call={"Vec::default": "[]", "exclusively_owned_areas_normalized_shares": "shares {0} {1}", "exclusively_owned_areas": "ownAreas {0}"},
+                     mutmethods={"reserve": "{0}"})
+SHARES = [
+    dict(SHARES_COMMON, name="visual_call_shares", file="trackers/visual_sort/simple_api.rs", impl=r"impl VisualSort \{", fn="predict_with_scene"),
+    dict(SHARES_COMMON, name="batch_visual_scene_shares", file="trackers/visual_sort/batch_api.rs", impl=r"impl BatchVisualSort \{", fn="predict"),
+]
+
 # ---- the per-detection loop of `Sort::predict_with_scene`: apply the winners, one record per detection (C01)
 def pick_apply(stmts):
     """from `let mut res = Vec::default();` to the loop that fills it (the tail `res` is the value)"""
@@ -1684,7 +1698,7 @@ LOGIC = [
 def gen(repo, cfgs, header, footer):
     out, unread = [header], []
     for c in cfgs:
-        if c in LOGIC or c in TRACK or c in VOTING or c in TRACK_DIST or c in STORE or c in RECORDS or c in AUTOWASTE or c in VISVOTE or c in STORE_MAP or c in STORE_ADD or c in SORTVOTE or c in IDLE or c in TRACK_BUILD or c in APPLY or c in GC or c in VOTEPARAMS or c in BATCHREQ or c in FANOUT:
+        if c in LOGIC or c in TRACK or c in VOTING or c in TRACK_DIST or c in STORE or c in RECORDS or c in AUTOWASTE or c in VISVOTE or c in STORE_MAP or c in STORE_ADD or c in SORTVOTE or c in IDLE or c in TRACK_BUILD or c in APPLY or c in GC or c in VOTEPARAMS or c in BATCHREQ or c in FANOUT or c in SHARES:
             c = dict(c, scalar=c.get("scalar", "Rat"))
         path = os.path.join(repo, "src", c["file"])
         try:
@@ -2005,6 +2019,7 @@ def main():
     jobs.append(("LVoteParams.lean", VOTEPARAMS, HEADER_L + PRELUDE_VP, "SimVerif.Gen.L"))
     jobs.append(("LBatchReq.lean", BATCHREQ, "import SimVerif.Gen.LBase\n" + HEADER_L, "SimVerif.Gen.L"))
     jobs.append(("LFanOut.lean", FANOUT, HEADER_L, "SimVerif.Gen.L"))
+    jobs.append(("LShares.lean", SHARES, HEADER_L + "/-- `VisualSortObservation`: the fields the own-area computation reads -/\nstructure VObsIn (B : Type) where\n  bounding_box : B\n", "SimVerif.Gen.L"))
     jobs.append(("LGc.lean", GC, "import SimVerif.Gen.LEpoch\n" + HEADER_L, "SimVerif.Gen.L"))
     jobs.append(("LApply.lean", APPLY, "import SimVerif.Gen.LBase\n" + HEADER_L, "SimVerif.Gen.L"))
     jobs.append(("LTrackBuild.lean", TRACK_BUILD, "import SimVerif.Model.Track\n" + HEADER_L + "open SimVerif\n", "SimVerif.Gen.L"))
